@@ -75,6 +75,14 @@ def populate(db):
     drv.request(D.one("Create", {"otype": "SymmetricKey", "attrs": attrs()}))                                     # 3
     drv.request(D.one("Create", {"otype": "SymmetricKey", "attrs": attrs(extra=EXTRA)}))                          # 4
     drv.request(D.one("Activate", {"uid": 3}))
+    # one object of every other kind (5..10): whatever a restart or a recovery does to the store, it does to all of them
+    for t, val, kw in (("OpaqueData", "pw", {}), ("Certificate", "pw", {}), ("PublicKey", "rsapub", dict(alg="RSA", len=1024, fmt="PKCS_1")),
+                       ("PrivateKey", "rsapriv", dict(alg="RSA", len=1024, fmt="PKCS_8")),
+                       ("SplitKey", "k16", dict(alg="AES", len=128, fmt="RAW")), ("SecretData", "pw", {})):
+        r = drv.request(D.one("Register", {"otype": t, "attrs": ([{"name": "Cryptographic Usage Mask", "v": ["VERIFY"]}] if t != "OpaqueData" else []) + EXTRA[:2],
+                                           "obj": dict({"type": t, "val": val}, **kw)}))
+        if r["items"][0]["status"] != "Success":
+            raise common.MachineryFailure("C09 populate: Register %s: %s" % (t, r["items"][0]))
     drv.stop()
 
 
@@ -183,12 +191,123 @@ def _experiment(args):
     died = os.WIFEXITED(status) and os.WEXITSTATUS(status) == 9
     rec = dump(work)
     broken, notes = fresh_check(work)
+    rec2 = dump(work)               # what is there after the restarted server opened, listed and read everything
     for sfx in ("", "-journal", "-wal", "-shm"):
         try:
             os.unlink(work + sfx)
         except OSError:
             pass
-    return {"name": name, "k": k, "after": after, "died": died, "rec": rec, "broken": broken, "notes": notes[:5]}
+    return {"name": name, "k": k, "after": after, "died": died, "rec": rec, "rec2": rec2, "broken": broken, "notes": notes[:5]}
+
+
+def _startup_crash(args):
+    """The very first start-up on a new database file dies immediately before its k-th SQL statement (k = 0: the count run).
+    A second process then starts on the same file and must serve: create, register, read, list."""
+    k, = args
+    common.scratch()
+    work = os.path.join(common.scratch(), "c09_start_%d.db" % k)
+    for sfx in ("", "-journal", "-wal", "-shm"):
+        if os.path.exists(work + sfx):
+            os.unlink(work + sfx)
+    rd, wr = os.pipe()
+    pid = os.fork()
+    if pid == 0:
+        try:
+            os.close(rd)
+            import sqlalchemy
+            from kmip.services.server import engine as engine_mod
+            real = sqlalchemy.create_engine
+            count = {"n": 0, "stmts": []}
+
+            def create_engine(*a, **kw):
+                e = real(*a, **kw)
+
+                def stmt(conn, cursor, statement, parameters, context, executemany):
+                    st = statement.lstrip().upper()
+                    if st.startswith(("CREATE", "INSERT", "UPDATE", "DELETE", "DROP", "ALTER")):
+                        count["n"] += 1
+                        count["stmts"].append(" ".join(st.split()[:3]))
+                        if k and count["n"] == k:
+                            os._exit(9)
+                sqlalchemy.event.listen(e, "before_cursor_execute", stmt)
+                return e
+            engine_mod.sqlalchemy.create_engine = create_engine
+            try:
+                drv = D.EngineDriver(db=work, intern=E.new_interner())
+                drv.stop()
+            finally:
+                engine_mod.sqlalchemy.create_engine = real
+            os.write(wr, json.dumps(count).encode())
+        finally:
+            os._exit(0)
+    os.close(wr)
+    data = b""
+    while True:
+        chunk = os.read(rd, 65536)
+        if not chunk:
+            break
+        data += chunk
+    os.close(rd)
+    _, status = os.waitpid(pid, 0)
+    died = os.WIFEXITED(status) and os.WEXITSTATUS(status) == 9
+    out = {"k": k, "died": died, "count": json.loads(data.decode()) if data else None, "problems": []}
+    if k:
+        # the restarted server: everything a new store must be able to do
+        try:
+            drv = D.EngineDriver(db=work, intern=E.new_interner())
+            try:
+                reqs = [D.one("Create", {"otype": "SymmetricKey", "attrs": attrs(extra=EXTRA)}),
+                        D.one("Register", {"otype": "OpaqueData", "attrs": [], "obj": {"type": "OpaqueData", "val": "pw"}}),
+                        D.one("Register", {"otype": "PrivateKey", "attrs": [{"name": "Cryptographic Usage Mask", "v": ["SIGN"]}],
+                                           "obj": {"type": "PrivateKey", "val": "rsapriv", "alg": "RSA", "len": 1024, "fmt": "PKCS_8"}}),
+                        D.one("Register", {"otype": "Certificate", "attrs": [{"name": "Cryptographic Usage Mask", "v": ["VERIFY"]}],
+                                           "obj": {"type": "Certificate", "val": "pw"}}),
+                        D.one("Register", {"otype": "SplitKey", "attrs": [{"name": "Cryptographic Usage Mask", "v": ["ENCRYPT"]}],
+                                           "obj": {"type": "SplitKey", "val": "k16", "alg": "AES", "len": 128, "fmt": "RAW"}}),
+                        D.one("Register", {"otype": "SecretData", "attrs": [{"name": "Cryptographic Usage Mask", "v": ["DERIVE_KEY"]}],
+                                           "obj": {"type": "SecretData", "val": "pw"}}),
+                        D.one("Get", {"uid": 1}), D.one("GetAttributes", {"uid": 2, "names": []}), D.one("Activate", {"uid": 1}),
+                        D.one("Locate", {"filters": []})]
+                for q in reqs:
+                    r = drv.request(q)
+                    it = r["items"][0] if r.get("items") else {"status": r.get("kind"), "reason": r.get("reason")}
+                    if it["status"] != "Success":
+                        out["problems"].append("%s -> %s %s" % (q["items"][0]["op"], it["status"], it.get("reason")))
+                st = drv.state()
+                out["problems"] += st["broken"]
+                if len(st["objs"]) != 6:
+                    out["problems"].append("%d objects stored instead of 6" % len(st["objs"]))
+            finally:
+                drv.stop()
+        except Exception as e:
+            out["problems"].append("cannot start: %r" % (e,))
+    for sfx in ("", "-journal", "-wal", "-shm"):
+        try:
+            os.unlink(work + sfx)
+        except OSError:
+            pass
+    return out
+
+
+def startup_crashes(run):
+    """Durability.tla StartStep / Crash / Restart on the real engine: process death before every statement of the first
+    start-up (the schema is created table by table, each CREATE TABLE its own implicit transaction)."""
+    base = _startup_crash((0,))
+    if not base["count"] or base["count"]["n"] < 5:
+        raise common.MachineryFailure("C09 start-up leg: the first start-up issued %s statements" % (base["count"],))
+    n = base["count"]["n"]
+    with multiprocessing.Pool(common.NCPU) as pool:
+        outs = pool.map(_startup_crash, [(k,) for k in range(1, n + 1)], chunksize=1)
+    for o in outs:
+        if not o["died"]:
+            raise common.MachineryFailure("C09 start-up leg: the child did not die at statement %d" % o["k"])
+        run.case(("startup-crash", o["k"], base["count"]["stmts"][o["k"] - 1]))
+        if o["problems"]:
+            run.violation("C09_openable", {"op": "start-up", "point": "before " + base["count"]["stmts"][o["k"] - 1]},
+                          {"experiment": "first start-up killed before statement %d of %d" % (o["k"], n),
+                           "statements": base["count"]["stmts"], "problems": o["problems"][:8]})
+    run.traces += len(outs)
+    run.extra["startup_crash_points"] = n
 
 
 class Fault(Crash):
@@ -455,8 +574,9 @@ def check(run, tier):
                 "experiment is validated by TraceC09.tla (atomic, durable, one transaction, openable); plus SIGKILL at random "
                 "instants during a create/destroy workload. distinct = distinct (operation, crash point) experiments.")
     cfg = tlc.write_cfg("MC_C09.cfg", "SPECIFICATION Spec\nCONSTANTS\n  Ops <- OpsC09\n  SPLIT_COMMIT = FALSE\n  FAULTS = 2\n  RETRY_AFTER_ROLLBACK = FALSE\n"
+                        "  Tables <- TablesC09\n  SKIP_SCHEMA_IF_BASE = FALSE\n  PRUNE_ON_START = FALSE\n"
                         "INVARIANT AckedDurable\nINVARIANT AllOrNothing\nINVARIANT NoOrphanWrites\nINVARIANT FailedAbsent\n"
-                        "INVARIANT AckedOnDisk\nCHECK_DEADLOCK FALSE\n")
+                        "INVARIANT AckedOnDisk\nINVARIANT Serviceable\nPROPERTY RestartKeeps\nCHECK_DEADLOCK FALSE\n")
     res = tlc.run("MC_C09", cfg, allow_violation=True)
     run.add_tlc(res, "MC_C09: crash at every step")
     if res.violated:
@@ -475,7 +595,10 @@ def check(run, tier):
         ok = resp.get("kind") == "resp" and all(i["status"] == "Success" for i in resp["items"])
         if not ok:
             raise common.MachineryFailure("C09 workload: %s does not succeed on the populated store: %s" % (name, resp))
-        info[name] = {"events": events, "post": post, "posts": posts, "nitems": len(req["items"])}
+        # the acknowledged case: the operation completed and answered; the server is then started again on the file
+        abroken, anotes = fresh_check(work)
+        info[name] = {"events": events, "post": post, "posts": posts, "nitems": len(req["items"]),
+                      "after_restart": dump(work), "abroken": abroken, "anotes": anotes}
         for k in range(1, len(events) + 1):
             tasks.append((name, req, base, k, False))
         tasks.append((name, req, base, 0, True))
@@ -489,7 +612,7 @@ def check(run, tier):
         recs.append({"id": "%s@%s" % (o["name"], "after-commit" if o["after"] else o["k"]),
                      "events": full if o["after"] else full[:o["k"] - 1], "full": full, "pre": pre, "post": info[o["name"]]["post"],
                      "posts": info[o["name"]]["posts"], "nitems": info[o["name"]]["nitems"],
-                     "rec": o["rec"], "acked": False, "broken": o["broken"], "notes": o["notes"]})
+                     "rec": o["rec"], "rec2": o["rec2"], "acked": False, "broken": o["broken"], "notes": o["notes"]})
         run.case((o["name"], "after" if o["after"] else o["k"]))
     # transient storage faults: every write statement / COMMIT of every operation refused once, the process lives on
     ftasks = [(name, req, base, k) for name, req in operations() for k, ev in enumerate(info[name]["events"], 1) if ev != "B"]
@@ -512,7 +635,8 @@ def check(run, tier):
     for name, inf in info.items():
         recs.append({"id": "%s@acked" % name, "events": inf["events"], "full": inf["events"], "pre": pre, "post": inf["post"],
                      "posts": inf["posts"], "nitems": inf["nitems"],
-                     "rec": inf["post"], "acked": True, "broken": 0, "notes": []})
+                     "rec": inf["after_restart"], "rec2": inf["after_restart"], "acked": True, "broken": inf["abroken"],
+                     "notes": inf["anotes"][:5]})
     # crashes inside SQLite's commit: killed at every write-side system call on the database / journal
     names = [n for n, _ in operations()]
     if quick:
@@ -539,6 +663,7 @@ def check(run, tier):
     for x in recs:
         x.setdefault("fault", False)
         x.setdefault("nacked", 0)
+        x.setdefault("rec2", x["rec"])
     path = os.path.join(common.scratch(), "c09.json")
     json.dump(recs, open(path, "w"))
     cfg = tlc.write_cfg("TraceC09.cfg", "SPECIFICATION Spec\nCHECK_DEADLOCK FALSE\n")
@@ -560,6 +685,7 @@ def check(run, tier):
     run.extra["crash_experiments"] = len(recs)
     run.extra["sql_events_per_operation"] = {k: v["events"] for k, v in info.items()}
     run.sample({"experiment": recs[5]["id"], "events_before_crash": recs[5]["events"], "recovered_equals_pre": set(recs[5]["rec"]) == set(pre)})
+    startup_crashes(run)
     random_kills(run, base, 8 if quick else 80, common.SEED)
     system_restarts(run, quick)
     run.assumptions.append("process death (os._exit / SIGKILL), not power loss: SQLite's atomic commit and journal recovery are assumed")
